@@ -1,8 +1,8 @@
 #!/bin/bash
-# every property-preserving patch under benign/ against ALL quick checks: the total number of alarms must be 0
+# every property-preserving patch under benign/ (optionally only ids starting with $1) against ALL quick checks: the total number of alarms must be 0
 cd "$(dirname "$0")/.."
 tot=0
-for d in benign/*/; do
+for d in benign/${1:-}*/; do
   echo "== $(basename $d)"
   out=$(tools/try_benign.sh "$d" 2>&1 | grep -v silent)
   echo "$out" | cut -c1-400
